@@ -69,6 +69,11 @@ CHECKS = {
         "Every bounded combination of stored state, start_value, engine/rtc, re-activations, history prefix and restart is executed symbolically.",
         "DESIGN.md section 4 C11",
     ),
+    "C12": sx(
+        "provider distribution, attachment time and repetition enumerated by the solver; callback log judged by the trace acceptor over the providers attached so far; per-provider guard values symbolic",
+        "Every bounded distribution of four features over machine/model/constructor listener/late listener x attachment schedule, with a silent second instance.",
+        "DESIGN.md section 4 C12",
+    ),
     "C13": sx(
         "calling styles compared relationally on symbolic guards/arguments; send(name) over the finite attribute-name pool; event matching over a symbolic string (z3 string theory)",
         "Every pre-state x event x calling style twin, every attribute name of the machine as an event name, and Transition.match for all strings.",
